@@ -4,6 +4,7 @@ import (
 	"bytes"
 	"fmt"
 	"math"
+	"path/filepath"
 	"sort"
 	"strings"
 	"sync"
@@ -541,27 +542,53 @@ func (w *world) listLaws(at int, fm *fontscan.FontMap, vc fontscan.VerifCandidat
 			}
 			return e
 		}
+		// the documented comparator, ties included: same score => user provided first, then
+		// "regular" over "mono" (family name holds "mono"), then .ttf/.ttc before the rest;
+		// what is still equal keeps the order of the database (the sort is stable)
+		lessDoc := func(ia, ib int) bool {
+			a, b := get(ia), get(ib)
+			if a.strong != b.strong {
+				return a.strong
+			}
+			if !a.strong && a.hasScript != b.hasScript {
+				return a.hasScript
+			}
+			if a.score != b.score {
+				return a.score < b.score
+			}
+			if ua, ub := db[ia].VerifIsUserProvided(), db[ib].VerifIsUserProvided(); ua != ub {
+				return ua
+			}
+			if ma, mb := strings.Contains(db[ia].Family, "mono"), strings.Contains(db[ib].Family, "mono"); ma != mb {
+				return !ma
+			}
+			tt := func(i int) bool {
+				e := strings.ToLower(filepath.Ext(db[i].Location.File))
+				return e == ".ttf" || e == ".ttc"
+			}
+			if ta, tb := tt(ia), tt(ib); ta != tb {
+				return ta
+			}
+			return false
+		}
+		var model []int
+		for i := range db {
+			if e := get(i); e.family || e.hasScript {
+				model = append(model, i)
+			}
+		}
+		sort.SliceStable(model, func(x, y int) bool { return lessDoc(model[x], model[y]) })
+		pos := map[int]int{}
+		for k, i := range model {
+			pos[i] = k
+		}
 		for k := 0; k+1 < len(vc.WithFallback); k++ {
 			ia, ib := vc.WithFallback[k], vc.WithFallback[k+1]
-			a, b := get(ia), get(ib)
-			bad := ""
-			switch {
-			case b.strong && !a.strong:
-				bad = "a weak substitute comes before a strong one"
-			case a.strong && b.strong:
-				if a.score > b.score {
-					bad = "among strong substitutes the worse score comes first"
-				}
-			case !a.strong && !b.strong:
-				if b.hasScript && !a.hasScript {
-					bad = "among weak substitutes a face without the script comes before one with it"
-				} else if a.hasScript == b.hasScript && a.score > b.score {
-					bad = "among weak substitutes with the same script support the worse score comes first"
-				}
-			}
-			if bad != "" {
-				return fail("fallback-order", "%s: entries %d (family %q, %+v) and %d (family %q, %+v) of withFallback = %v under script %s",
-					bad, ia, db[ia].Family, a, ib, db[ib].Family, b, vc.WithFallback, scriptName(w.script))
+			pa, oka := pos[ia]
+			pb, okb := pos[ib]
+			if oka && okb && pa > pb {
+				return fail("fallback-order", "entries %d (family %q, %+v) and %d (family %q, %+v) of withFallback = %v are in the opposite order of the documented comparator (strong before weak; weak: script support first; score; user provided; regular over mono; TrueType first; database order) under script %s; documented order of all candidates: %v",
+					ia, db[ia].Family, get(ia), ib, db[ib].Family, get(ib), vc.WithFallback, scriptName(w.script), model)
 			}
 		}
 		if len(vc.WithFallback) > 1 {
